@@ -77,3 +77,9 @@ def run(ctx):
     ctx.rule('NOSKIP', 'shared with C16: no release in psf_close or a close hook can be skipped on a path on which its guards hold (an I/O failure inside a close hook must not skip fclose/remove/free)', floor=25)
     hooks = sorted(set(prog.slot('codec_close')) | set(prog.slot('container_close')))
     noskip(ctx, prog, own, [prog.fn('psf_close', 'sndfile.c')] + [g for h in hooks for g in prog.fns.get(h, [])])
+
+    ctx.rule('IO-COUNT', 'in every loop that works off a remaining count R (R -= V in the body), each psf_fread / psf_fwrite of the body transfers exactly V, or R is decremented by the call\'s own result: '
+             'what is transferred is what is accounted for (the pipe route of header_seek skips by reading and must not swallow bytes of the following chunk)', floor=100)
+    from engine.iocount import io_count
+    ctx.require(io_count(ctx, prog) >= 100, 'too few accounted transfers found')
+
